@@ -140,18 +140,19 @@ func languageFromLocale(locale string) Language {
 // DefaultLanguage returns the language found in environment variables LC_ALL, LC_CTYPE or
 // LANG (in that order), or the zero value if not found.
 func DefaultLanguage() Language {
+	// POSIX: a variable which is set but empty is ignored
 	p, ok := os.LookupEnv("LC_ALL")
-	if ok {
+	if ok && p != "" {
 		return languageFromLocale(p)
 	}
 
 	p, ok = os.LookupEnv("LC_CTYPE")
-	if ok {
+	if ok && p != "" {
 		return languageFromLocale(p)
 	}
 
 	p, ok = os.LookupEnv("LANG")
-	if ok {
+	if ok && p != "" {
 		return languageFromLocale(p)
 	}
 
